@@ -48,7 +48,7 @@ fn any_table() -> TypeResolverImpl {
     t
 }
 
-//# harness alphabet_index tier=quick label=complete props=C09,C13 fn=rusty_linter/src/core/type_resolver_impl.rs::char_to_alphabet_index
+//# harness alphabet_index tier=quick label=complete props=C09,C13,C07 fn=rusty_linter/src/core/type_resolver_impl.rs::char_to_alphabet_index
 harness!(alphabet_index, 2, {
     // every Unicode scalar value that is a letter of the Latin alphabet (everything else: caller's obligation)
     let v = vs::u32();
@@ -78,7 +78,7 @@ harness!(new_is_single, 2, {
     reach!(c == 'q');
 });
 
-//# harness fill_ranges_frame tier=quick label=complete props=C13,C09 fn=rusty_linter/src/core/type_resolver_impl.rs::TypeResolverImpl::fill_ranges
+//# harness fill_ranges_frame tier=quick label=complete props=C13,C09,C07 fn=rusty_linter/src/core/type_resolver_impl.rs::TypeResolverImpl::fill_ranges
 harness!(fill_ranges_frame, 27, {
     let mut t = any_table();
     let c = any_letter();
@@ -129,7 +129,7 @@ harness!(set_def_type, 27, {
     std::mem::forget(d);
 });
 
-//# harness set_def_type_one tier=quick label=bounded(ranges<=1) props=C13,C09 fn=rusty_linter/src/core/type_resolver_impl.rs::TypeResolverImpl::set
+//# harness set_def_type_one tier=quick label=bounded(ranges<=1) props=C13,C09,C07 fn=rusty_linter/src/core/type_resolver_impl.rs::TypeResolverImpl::set
 harness!(set_def_type_one, 27, {
     // DEFxxx r  (a single letter or a letter range); starting from any table
     let mut t = any_table();
@@ -152,7 +152,7 @@ harness!(set_def_type_one, 27, {
     std::mem::forget(d);
 });
 
-//# harness qualify_name tier=quick label=bounded(len<=2) props=C13,C09 fn=rusty_linter/src/core/type_resolver.rs::IntoTypeQualifier::qualify
+//# harness qualify_name tier=quick label=bounded(len<=2) props=C13,C09,C07 fn=rusty_linter/src/core/type_resolver.rs::IntoTypeQualifier::qualify
 harness!(qualify_name, 27, {
     // a name of one or two characters whose first character is any letter
     let t = any_table();
